@@ -28,6 +28,11 @@ def load_local_known(rep):
     except FileNotFoundError:
         pass
 
+HISTORIES = ["z//", "z//z", "z//s", "z//f", "z//g", "z//d", "z//c", "z//u", "z/z/", "z/s/", "z/f/", "z/g/",
+             "z//us", "z//su", "z/s/s", "z//sz", "z//zs", "z//sfgdc", "z/sfg/gfs", "z//sd", "z//ds",
+             "s//", "s//z", "s//s", "s//f", "s//g", "s//d", "s//c", "s/z/", "s/g/", "s//uz", "s//zu", "s//zs", "s//sz", "s/z/z",
+             "g//", "g//z", "g//s", "g/z/", "g/s/", "g//zs", "g//d"]
+
 def codes(s):
     return ".".join(str(ord(c)) for c in s) if s else "-"
 
@@ -35,6 +40,132 @@ def prefix_program(spec):
     """spec column of a tree op -> zygo source of the prefix form (statements in a begin)."""
     stmts = spec.split(" | ")
     return "(begin " + " ".join(stmts) + ")"
+
+
+def history_phase(rep, rows, vops):
+    """Phase 3 — INTERFERENCE HISTORIES. The meaning of {…} in interpreter A must not depend on which other
+    interpreters (NewZlisp, NewZlispSandbox, NewZlispWithFuncs with a small / a shifted table, Duplicate, Clone of A)
+    were created and used in the process before A expands or evaluates the block. Two judgements per op, both
+    on the real code:
+      (a) under the history, value + (tr …) trace + final bindings of the block = those of the prefix form the
+          Lean SPEC computed (`eq`);
+      (b) the value under the history = the value of the same block in a process in which no other kind of
+          interpreter exists (reference ops `<akind>//`, one `zyh exec` process per kind of A).
+    Ops that fail in the batch are re-run ALONE in a fresh process, so that the replay is one self-contained line."""
+    hops = []
+    for op, impl, model, spec in rows:
+        if not op.startswith("expand htree "):
+            continue
+        _, _, hist, rest = op.split(" ", 3)
+        tree = spec if spec != "-" else None
+        if tree is None:
+            if model in ("err", "-empty-", "bad-op"):
+                continue
+            hops.append("expand hval %s %s => -" % (hist, rest))
+        elif tree not in ("err", "-empty-", "bad-op"):
+            hops.append("expand hval %s %s => %s" % (hist, rest, codes(prefix_program(tree.split(" ## ")[0]))))
+    # the sampled value ops of phase 2 once more, each under a history
+    hs = HISTORIES
+    step = 4 if rep.tier == "quick" else 2
+    for k, vop in enumerate(vops[::step]):
+        hops.append("expand hval %s %s" % (hs[k % len(hs)], vop[len("expand val "):]))
+    hops = list(dict.fromkeys(hops))
+    if not hops:
+        return []
+    def refop(op):
+        t = op.split(" ", 3)
+        return "expand hval %s// %s" % (t[2][0], t[3])
+    refs = {}
+    for akind in "zsg":
+        rl = list(dict.fromkeys(refop(o) for o in hops if o.split(" ", 3)[2][0] == akind))
+        if rl:
+            ans = V.exec_impl("\n".join(rl) + "\n")      # a process of its own: only interpreters of this kind
+            refs.update(zip(rl, ans))
+    impl = V.exec_impl("\n".join(hops) + "\n")
+    def value(ans):
+        t = ans.split(" ")
+        return t[1] if len(t) >= 2 and t[0] in ("eq", "ne", "only") else ans
+    def judge(op, ans, ref):
+        if ans.startswith("ne "):
+            return "under the history the block and its prefix form differ"
+        if not (ans.startswith("eq ") or ans.startswith("only ")):
+            return "no value (%s)" % ans[:40]
+        if value(ans) != value(ref):
+            return "the value differs from the history-free run"
+        return None
+    dist = {"eq": 0, "only(spec silent)": 0, "both-err": 0, "bad": 0}
+    bad = []
+    for op, ans in zip(hops, impl):
+        why = judge(op, ans, refs.get(refop(op), "?"))
+        if why:
+            dist["bad"] += 1
+            bad.append((op, ans, why))
+        elif value(ans).startswith("err"):
+            dist["both-err"] += 1
+        elif ans.startswith("only "):
+            dist["only(spec silent)"] += 1
+        else:
+            dist["eq"] += 1
+    rep.coverage["channels"]["expand-history-value"] = {
+        "ops": len(hops), "reference_ops": len(refs), "distribution": dist, "histories": hs,
+        "rule": "hval <akind>/<pre>/<post>: interpreters of <pre> created and used before A, of <post> after A, then A evaluates {…} "
+                "and (a second A) the prefix form computed by the Lean spec: equal values, traces, bindings; and equal to the run of the "
+                "same block with the empty history in a process holding only interpreters of A's kind"}
+    rep.coverage["evaluations"] = rep.coverage.get("evaluations", 0) + len(hops) + len(refs)
+    bad.sort(key=lambda r: len(r[0]))
+    reported = 0
+    confirmed = []
+    for op, ans, why in bad[:12]:
+        if reported >= 3:
+            break
+        alone = V.exec_impl(op + "\n")[0]
+        ref_alone = V.exec_impl(refop(op) + "\n")[0]
+        why2 = judge(op, alone, ref_alone)
+        if why2:
+            reported += 1
+            confirmed.append(op)
+            rep.violation("failing-input", {"channel": "expand", "ops": [op], "reference_op": refop(op),
+                          "spec_requires": "eq " + value(ref_alone) + "   (the meaning of the block in A is a function of A and the block alone)",
+                          "impl_did": alone, "why": why2, "others_like_it": len(bad)}, key=op)
+    if bad and not confirmed:
+        op, ans, why = bad[0]
+        k = hops.index(op)
+        rep.violation("failing-input", {"channel": "expand", "ops": hops[:k + 1], "spec_requires": "eq " + value(refs.get(refop(op), "?")),
+                      "impl_did": ans, "why": why + " (only as the last line of this sequence of ops run in ONE process; alone it passes)",
+                      "others_like_it": len(bad)}, key=op)
+    return bad
+
+
+def replay(body):
+    """bin/replay: value ops (`val`, `hval`) are judged here (the Lean driver does not evaluate); tree ops as usual."""
+    ops = body.get("ops") or []
+    V.prepare([])
+    rc = 0
+    plain = [o for o in ops if not (o.startswith("expand hval ") or o.startswith("expand val "))]
+    if plain:
+        rows, _ = V.run_channel("expand", 1, "quick", extra_ops=plain, gen=False)
+        for op, impl, model, spec in rows:
+            print("op   :", op); print("impl :", impl); print("model:", model); print("spec :", spec)
+            if spec != "-" and impl != spec:
+                print("=> property fails on this input"); rc = 1
+            elif impl != model:
+                print("=> implementation and model differ"); rc = 1
+    vals = [o for o in ops if o not in plain]
+    if vals:
+        ans = V.exec_impl("\n".join(vals) + "\n")           # all lines in ONE process, in order
+        op, a = vals[-1], ans[-1]
+        print("op   :", op); print("impl :", a)
+        if op.startswith("expand hval "):
+            t = op.split(" ", 3)
+            ref = "expand hval %s// %s" % (t[2][0], t[3])
+            r = V.exec_impl(ref + "\n")[0]                    # the history-free run, in a process of its own
+            print("reference op:", ref); print("reference   :", r)
+            va, vr = a.split(" ")[1:2], r.split(" ")[1:2]
+            if a.startswith("ne ") or va != vr:
+                print("=> property fails on this input: under the history the block does not mean its prefix form / its history-free value"); rc = 1
+        elif not a.startswith("eq "):
+            print("=> property fails on this input: value/effects of the block differ from those of its prefix form"); rc = 1
+    return rc
 
 def run(rep):
     load_local_known(rep)
@@ -103,6 +234,7 @@ def run(rep):
         key = op.split(" => ")[0]
         rep.violation("failing-input", {"channel": "expand", "ops": [op], "spec_requires": "eq (same value and effects as the prefix form)",
                                         "impl_did": impl, "others_like_it": len(bad_val)}, key=key)
+    bad_hist = history_phase(rep, rows, vops)
     rep.coverage["exhaustive"] = True
     rep.coverage["rule"] = ("quick: every sequence of 1, 2 and 3 operators over all 19 binary infix operators (+ - * / mod ** and or == != < <= > >= = := += -= ,) "
                             "in three spacings (all spaces / as tight as the lexer allows / random), every operator pair with 10 operand shapes "
@@ -112,4 +244,4 @@ def run(rep):
                             "every pair of the lexer's operator texts around names, numerals, signed numerals and floats with signed exponents in every none/blank combination (sampled 1/3 in quick), adjacent operators, "
                             "random sequences and structured blocks with random gap kinds (none, blank, tab, newline, CR LF, double blank), and the adjacencies the spacing rules exclude (malformed stream: impl vs model only); "
                             "thorough: all 4-operator sequences and 20-40x the samples. An op is non-trivial when the implementation produced a tree.")
-    V.proof_break_resolution(rep, bool(bad_spec) or bool(bad_val))
+    V.proof_break_resolution(rep, bool(bad_spec) or bool(bad_val) or bool(bad_hist))
